@@ -208,7 +208,8 @@ class Model:
         return m.child(new_id, "slice_head", n_limit=m.n_limit + 1)
 
     def group_by(self, m: MTable, new_id: str, toks: list, add: bool) -> MTable:
-        g = (list(m.grouping) if add else []) + list(toks)
+        g = list(m.grouping) if add else []
+        g += [t for t in toks if t not in g]
         return m.child(new_id, "group_by", grouping=g)
 
     def ungroup(self, m: MTable, new_id: str) -> MTable:
